@@ -40,6 +40,7 @@ CLASSES = {
     'rigid.Swap': ('box', ['monoidal.Swap', 'rigid.Box']),
     'rigid.Cup': ('box', ['rigid.Box']),
     'rigid.Cap': ('box', ['rigid.Box']),
+    'cartesian.Function': ('function', ['rigid.Box']),
     'biclosed.Ty': ('ty', ['monoidal.Ty']),
     'biclosed.Over': ('ty', ['biclosed.Ty']),
     'biclosed.Under': ('ty', ['biclosed.Ty']),
@@ -54,6 +55,9 @@ CLASSES = {
     'biclosed.FX': ('box', ['biclosed.Box']),
     'biclosed.BX': ('box', ['biclosed.Box']),
 }
+
+# module-level functions that verified code may call by name (inlined from the real source)
+MODULE_FUNCTIONS = {'cartesian': ('tuplify', 'untuplify'), 'rigid': ('cups', 'caps')}
 
 BOX_KIND_OF_CLASS = {'monoidal.Swap': 'Swap', 'rigid.Swap': 'Swap', 'rigid.Cup': 'Cup', 'rigid.Cap': 'Cap',
                      'cat.Sum': 'Sum', 'monoidal.Sum': 'Sum', 'cat.Bubble': 'Bubble', 'monoidal.Bubble': 'Bubble',
@@ -70,6 +74,7 @@ MODULE_NAMES = {
     'rewriting': {},
     'rigid': {'Ob': 'rigid.Ob', 'Ty': 'rigid.Ty', 'PRO': 'rigid.PRO', 'Diagram': 'rigid.Diagram',
               'Id': 'rigid.Id', 'Box': 'rigid.Box', 'Swap': 'rigid.Swap', 'Cup': 'rigid.Cup', 'Cap': 'rigid.Cap'},
+    'cartesian': {'Function': 'cartesian.Function', 'Sum': 'monoidal.Sum', 'PRO': 'rigid.PRO', 'AxiomError': 'exc.AxiomError'},
     'biclosed': {'Ty': 'biclosed.Ty', 'Over': 'biclosed.Over', 'Under': 'biclosed.Under', 'Diagram': 'biclosed.Diagram',
                  'Id': 'biclosed.Id', 'Box': 'biclosed.Box', 'Curry': 'biclosed.Curry', 'FA': 'biclosed.FA',
                  'BA': 'biclosed.BA', 'FC': 'biclosed.FC', 'BC': 'biclosed.BC', 'FX': 'biclosed.FX', 'BX': 'biclosed.BX'},
@@ -170,6 +175,11 @@ class World:
             return VModule(name)
         if name in EXCEPTIONS:
             return VClass('exc.' + name)
+        if mod in MODULE_FUNCTIONS and name in MODULE_FUNCTIONS[mod]:
+            from . import frontend
+            q = mod + '.' + name
+            node, _ = frontend.find(q)
+            return VClosure(node, Env(None, {}), q)
         if name in BUILTINS:
             return VBuiltin(name, BUILTINS[name])
         if name in SPEC_PRIMS:
@@ -200,6 +210,7 @@ class World:
         """contract of Box.dagger / Box[::-1] (assumed here, verified per concrete class):
         swaps dom and cod and is an involution"""
         ex = interp.ex
+        ex.used.add('axiom: Box.dagger exchanges dom and cod and is an involution')
         d = T.bdag(b.t)
         ex.assume(T.bdom(d) == T.bcod(b.t))
         ex.assume(T.bcod(d) == T.bdom(b.t))
@@ -380,6 +391,7 @@ class World:
         if isinstance(obj, VSlice):
             if name in ('start', 'stop', 'step'):
                 return getattr(obj, name)
+            return VMethod(obj, name)
         if isinstance(obj, VObject):
             if name in obj.attrs:
                 return obj.attrs[name]
@@ -401,7 +413,7 @@ class World:
             return VMethod(obj, name)
         if isinstance(obj, VFunctor):
             if name == 'ar_factory':
-                return VClass(obj.ar_factory)
+                return VClass('cartesian.Function' if getattr(obj, 'python', False) else obj.ar_factory)
             if name == 'ob_factory':
                 return VClass('rigid.Ty' if obj.ar_factory == 'rigid.Diagram' else 'monoidal.Ty')
             return VMethod(obj, name)
@@ -468,12 +480,20 @@ class World:
             return self.call_method(interp, fn.recv, fn.name, args, kwargs)
         if isinstance(fn, VFunctor):
             return self.functor_call(interp, fn, args[0])
+        if isinstance(fn, VPyFun):
+            return self.call_pyfun(interp, fn, args)
+        if isinstance(fn, VObject) and fn.cls == 'cartesian.Function':
+            # calling a Function object: the real body of Function.__call__
+            from . import frontend
+            node, _ = frontend.find('cartesian.Function.__call__')
+            return interp.call_function(node, Env(None, {}), [fn] + list(args), kwargs, 'cartesian.Function.__call__')
         raise Unsupported('call of ' + fn.kind)
 
     def ty_adjoint(self, interp, t, side):
         """t.l / t.r of a rigid type: uninterpreted on sequences, with the pregroup facts instantiated where the term
         is created: same length, mutually inverse, anti-homomorphism on the concatenation t is written as, unit"""
         ex = interp.ex
+        ex.used.add('axiom: rigid adjoints .l / .r preserve length, are mutually inverse and reverse concatenations')
         f, g = (T.tyl, T.tyr) if side == 'l' else (T.tyr, T.tyl)
         parts = T._seq_parts(t)
         if not parts:
@@ -490,6 +510,28 @@ class World:
                 pieces.append(self.ty_adjoint(interp, p_, side))
             ex.assume(whole == T.ty_concat(*pieces))
         return whole
+
+    def as_wire_tuple(self, interp, v):
+        """a tuple of wire values as a sequence term (cls='tuple'): literal tuples of bare values are converted"""
+        if isinstance(v, VTy):
+            return v if v.cls == 'tuple' else VTy(v.t, cls='tuple')
+        if isinstance(v, (VTuple, VList)):
+            items = v.items if isinstance(v, VTuple) else (v.items() if v.is_literal() else None)
+            if items is not None and all(isinstance(x, VOb) for x in items):
+                return VTy(T.ty_concat(*[z3.Unit(x.t) for x in items]) if items else T.EMPTY, cls='tuple')
+        raise Unsupported('a tuple of wire values was expected, got ' + v.kind)
+
+    def call_pyfun(self, interp, f, args):
+        ex = interp.ex
+        if len(args) == 1 and isinstance(args[0], VStar):
+            x = self.as_wire_tuple(interp, args[0].seq)
+        else:
+            x = self.as_wire_tuple(interp, VTuple(list(args)))
+        out = f.out(x.t)
+        ex.assume(z3.Length(out) == f.cod)
+        if ex.branch(f.cod == 1):
+            return ex.ty_at(VTy(out, cls='tuple'), T.I(0))      # one output: the bare value
+        return VTy(out, cls='tuple')
 
     def ty_slash(self, interp, a, b, which):
         """a << b ('over') / a >> b ('under').  On rigid types (images of a functor into rigid.Ty) these are
@@ -511,6 +553,14 @@ class World:
         """F(t) for a type t: FT(t), with the homomorphism instance for the concatenation t is written as; for a
         functor on biclosed types also F(a << b) = F(a) << F(b), F(a >> b) = F(a) >> F(b) on the atomic parts"""
         ex = interp.ex
+        ex.used.add('axiom: the object map of a functor is a homomorphism on types (tensor branch of Functor.__call__)')
+        if getattr(F, 'python', False):
+            ex.used.add('axiom: PythonFunctor sends a type to PRO(len) and a box to Function(len(dom), len(cod), box.function)')
+        if getattr(F, 'adjoints', False):
+            ex.used.add('axiom: the object map of a rigid functor commutes with .l / .r (type branch of rigid.Functor.__call__)')
+        if getattr(F, 'slash', False):
+            ex.used.add('axiom: a functor on biclosed types is called recursively on the two sides of a slash type '
+                        '(proved for the Over / Under branches, assumed at the recursive call sites)')
         parts = T._seq_parts(t)
         if not parts:
             ex.assume(F.FT(T.EMPTY) == T.EMPTY)
@@ -518,6 +568,8 @@ class World:
         whole = F.FT(t)
         if len(parts) > 1:
             ex.assume(whole == T.ty_concat(*[F.FT(p) for p in parts]))
+        if getattr(F, 'python', False):
+            ex.assume(z3.Length(whole) == T.ty_len(t))          # ob = lambda t: PRO(len(t))
         if getattr(F, 'adjoints', False):
             # a rigid functor commutes with adjoints (assumed contract of the type branch of rigid.Functor.__call__)
             for p_ in parts:
@@ -545,13 +597,23 @@ class World:
             return VTy(self.functor_ty(interp, F, arg.t), cls='rigid' if F.ar_factory == 'rigid.Diagram' else None)
         if isinstance(arg, VDiagram):
             # the image of a sub-diagram (induction hypothesis of the functor contract): well-formed, F(dom) -> F(cod)
+            ex.used.add('axiom: the functor sends a sub-diagram to a well-formed diagram F(dom) -> F(cod) (induction hypothesis)')
             key = ('diagram', id(arg))
             if key not in F.images:
                 F.images[key] = ex.sym_diagram(T.fresh_name(F.name + '.dimg'), wf=True,
                                                dom=self.functor_ty(interp, F, arg.dom.t),
                                                cod=self.functor_ty(interp, F, arg.cod.t), global_inst=True)
             return F.images[key]
+        if isinstance(arg, VBox) and getattr(F, 'python', False):
+            # PythonFunctor: the image of a box is the Function wrapping the box's own python function
+            b = arg.t
+            n, m = T.ty_len(T.bdom(b)), T.ty_len(T.bcod(b))
+            f = VPyFun('box', m, out=lambda x, b=b: T.boxout(b, x))
+            dom, cod = VTy(self.functor_ty(interp, F, T.bdom(b))), VTy(self.functor_ty(interp, F, T.bcod(b)))
+            return VObject('cartesian.Function', {'dom': dom, 'cod': cod, '_dom': dom, '_cod': cod,
+                                                  'function': f, '_function': f})
         if isinstance(arg, VBox):
+            ex.used.add('precondition: the images a functor is given for boxes are well-formed diagrams F(dom) -> F(cod)')
             key = arg.t.sexpr()
             if key not in F.images:
                 dom = self.functor_ty(interp, F, T.bdom(arg.t))
@@ -610,9 +672,19 @@ class World:
         if cls == 'rigid.Id':
             cls = 'monoidal.Id'        # same fields; the rigid class only upgrades (abstract Upgrade contract)
         init = cls + '.__init__'
+        if init not in self.contracts:
+            # a class without its own __init__ inherits the one of its same-named base (rigid.Diagram -> monoidal.Diagram)
+            todo = [cls]
+            while todo:
+                c_ = todo.pop(0)
+                if c_ + '.__init__' in self.contracts:
+                    init, cls = c_ + '.__init__', c_
+                    break
+                todo.extend(b for b in CLASSES.get(c_, (None, []))[1] if b.split('.')[-1] == c_.split('.')[-1])
         if init in self.contracts and getattr(self.contracts[init], 'make', None) is not None:
             # call-site contract of a box constructor: the class invariant as a fresh box (verified against the body of
             # __init__ by the contract of the same name)
+            ex.used.add(init)
             return self.contracts[init].make(interp, list(args), dict(kwargs))
         if init in self.contracts:
             return self.apply(interp, init, args, kwargs, construct=cls)
@@ -623,6 +695,8 @@ class World:
         return VList(seq.segs, False)
 
     METHODS = {
+        ('function', 'then'): 'cartesian.Function.then',
+        ('function', 'tensor'): 'cartesian.Function.tensor',
         ('arrow', 'then'): 'cat.Arrow.then',
         ('arrow', '__getitem__'): 'cat.Arrow.__getitem__',
         ('diagram', 'then'): 'monoidal.Diagram.then',
@@ -644,6 +718,7 @@ class World:
         ('cat.Arrow', 'id'): 'cat.Id.__init__',
         ('rigid.Diagram', 'cups'): 'rigid.cups', ('rigid.Diagram', 'caps'): 'rigid.caps',
         ('monoidal.Diagram', 'normalize'): 'rewriting.normalize',
+        ('cartesian.Function', 'id'): 'cartesian.Function.id',
         ('rigid.Diagram', 'fa'): 'rigid.Diagram.fa', ('rigid.Diagram', 'ba'): 'rigid.Diagram.ba',
         ('rigid.Diagram', 'fc'): 'rigid.Diagram.fc', ('rigid.Diagram', 'bc'): 'rigid.Diagram.bc',
         ('rigid.Diagram', 'fx'): 'rigid.Diagram.fx', ('rigid.Diagram', 'bx'): 'rigid.Diagram.bx',
@@ -659,6 +734,7 @@ class World:
             return self.box_dagger(interp, recv)
         if isinstance(recv, (VDiagram, VArrow)) and name == 'upgrade':
             # abstract Upgrade contract (DESIGN 2.4): identity on every modelled field
+            ex.used.add('axiom: Upgrade (class-preserving upgrade) is the identity on the modelled fields')
             return args[0]
         if isinstance(recv, VDiagram) and name == 'id':
             return self.apply(interp, 'monoidal.Id.__init__', args, kwargs, construct='monoidal.Id')
@@ -674,6 +750,27 @@ class World:
                 return args[0]
             if name == 'count':
                 raise Unsupported('Ty.count')
+        if isinstance(recv, VSlice) and name == 'indices':
+            # slice.indices(n) for a step of -1 (CPython's PySlice_AdjustIndices): lower = -1, upper = n - 1
+            n = args[0].t
+            if not (isinstance(recv.step, VInt) and T.int_val(recv.step.t) == -1):
+                raise Unsupported('slice.indices for a step other than -1')
+
+            def adjust(v, default):
+                if isinstance(v, VNone):
+                    return default
+                t = v.t
+                if ex.branch(t < 0):
+                    t = z3.simplify(t + n)
+                    if ex.branch(t < 0):
+                        return T.I(-1)
+                    return t
+                if ex.branch(t >= n):
+                    return z3.simplify(n - 1)
+                return t
+            start = adjust(recv.start, z3.simplify(n - 1))
+            stop = adjust(recv.stop, T.I(-1))
+            return VTuple([VInt(start), VInt(stop), VInt(-1)])
         if isinstance(recv, VList):
             if name == 'index':
                 return BUILTINS['list_index'](interp, recv, *args)
@@ -701,8 +798,15 @@ class World:
         if isinstance(recv, VClass):
             key = (recv.name, name)
             if name == '__init__':
-                # explicit base-class initialiser: Base.__init__(self, ...)
+                # explicit base-class initialiser: Base.__init__(self, ...); a class without its own __init__ inherits it
                 q = recv.name + '.__init__'
+                todo = [recv.name]
+                while q not in self.contracts and todo:
+                    c_ = todo.pop(0)
+                    if c_ + '.__init__' in self.contracts:
+                        q = c_ + '.__init__'
+                        break
+                    todo.extend(b for b in CLASSES.get(c_, (None, []))[1] if b.split('.')[-1] == c_.split('.')[-1])
                 return self.apply(interp, q, list(args), kwargs)
             if key in self.CLASS_METHODS:
                 q = self.CLASS_METHODS[key]
@@ -712,6 +816,10 @@ class World:
             if name == 'upgrade':
                 return args[0]
             raise Unsupported('class attribute %s.%s' % (recv.name, name))
+        if isinstance(recv, VObject) and recv.cls == 'cartesian.Function':
+            key = ('function', name)
+            if key in self.METHODS:
+                return self.apply(interp, self.METHODS[key], [recv] + list(args), kwargs)
         key = (recv.kind, name)
         if key in self.METHODS:
             return self.apply(interp, self.METHODS[key], [recv] + list(args), kwargs)
@@ -724,6 +832,8 @@ class World:
         c = self.contracts.get(qualname)
         if c is None:
             raise Unsupported('no contract for callee ' + qualname)
+        if not self.spec_mode:
+            ex.used.add(qualname)
         if c.abstract is not None and not self.spec_mode and construct is None:
             return c.abstract(interp, list(args), dict(kwargs))
         node = c.spec_node()
@@ -771,6 +881,7 @@ SUPER = {
     ('biclosed.FX', '__init__'): 'monoidal.Box.__init__', ('biclosed.BX', '__init__'): 'monoidal.Box.__init__',
     ('biclosed.Curry', '__init__'): 'monoidal.Box.__init__',
     ('rigid.Cup', '__init__'): 'rigid.Box.__init__', ('rigid.Cap', '__init__'): 'rigid.Box.__init__',
+    ('monoidal.Swap', '__init__'): 'monoidal.Box.__init__',
 }
 
 
@@ -815,6 +926,8 @@ def _isinstance1(interp, v, nm):
         return z3.BoolVal(isinstance(v, (VInt, VBool)))
     if nm == 'py.slice':
         return z3.BoolVal(isinstance(v, VSlice))
+    if nm == 'py.tuple' and isinstance(v, VTy):
+        return z3.BoolVal(v.cls == 'tuple')
     if nm in ('py.list', 'py.tuple'):
         return z3.BoolVal(isinstance(v, (VList, VTuple)))
     if nm.startswith('py.'):
@@ -845,7 +958,20 @@ def _isinstance1(interp, v, nm):
         return z3.BoolVal(kind in ('box', 'diagram', 'arrow'))
     if isinstance(v, (VInt, VBool, VNone, VList, VTuple, VStr, VSlice, VOpaque, VReal)):
         return z3.BoolVal(False)
+    if isinstance(v, VObject):
+        return z3.BoolVal(v.cls == nm or nm in _bases(v.cls))
     raise Unsupported('isinstance(%s, %s)' % (v.kind, nm))
+
+
+def _bases(cls):
+    out, todo = set(), [cls]
+    while todo:
+        c = todo.pop()
+        for b in CLASSES.get(c, (None, []))[1]:
+            if b not in out:
+                out.add(b)
+                todo.append(b)
+    return out
 
 
 def _zip(interp, *lists):
@@ -990,7 +1116,33 @@ def _interchange_far(interp, self, i, j, left=None):
     return d
 
 
+def _scan_layers(interp, dom, cod, boxes, offsets):
+    """layers computed by the scanning constructor, at a call site: the caller's contract supplies well-formed layers for
+    its boxes / offsets in closed form (ex.scan_witness); they are checked here (pointwise obligations `pre:scan ...`),
+    and by the acceptance contract of the constructor (monoidal.Diagram.__init__[accepts]) they are what it computes"""
+    ex = interp.ex
+    hint = getattr(ex, 'scan_witness', None)
+    if hint is None:
+        raise Unsupported('scanning constructor at a call site without a layer witness')
+    ex.used.add('monoidal.Diagram.__init__')
+    layers = hint(interp, dom, cod, boxes, offsets)           # VArrow with closed-form layers
+    from contracts.preds import prove_wfA
+    n = boxes.length()
+    ex.prove('pre:scan: one layer per box', layers.boxes.length() == n)
+    ex.prove('pre:scan: layers start at dom', T.ty_eq(layers.dom.t, dom.t))
+    ex.prove('pre:scan: layers end at cod', T.ty_eq(layers.cod.t, cod.t))
+    prove_wfA(ex, 'pre:scan', layers)
+
+    def pointwise(k):
+        l = ex.list_at(layers.boxes, k)
+        ex.prove('pre:scan: layer k carries box k', ex.eq(l.box, ex.list_at(boxes, k)))
+        ex.prove('pre:scan: box k sits at offset k', T.ty_len(l.left.t) == ex.list_at(interp.world.as_sequence(interp, offsets), k).t)
+    ex.forall(n, pointwise)
+    return layers
+
+
 SPEC_PRIMS = {
+    'scan_layers': _scan_layers,
     'RawArrow': _raw_arrow, 'RawDiagram': _raw_diagram, 'RawLayer': _raw_layer, 'EmptyTy': _empty_ty,
     'as_diagram': _as_diagram, 'interchange_far': _interchange_far,
 }
